@@ -10,6 +10,7 @@ import tempfile
 
 import common
 import layouts as L
+import objgraph as G
 import validator as V
 from common import REPO, Ctx, enc_bytes, enc_text, exc_name
 
@@ -410,6 +411,83 @@ def run_history(src: str | None, seed: int, nops: int, shape=None):
     return doc, log, fresh
 
 
+# ---------------------------------------------------------------------------------------------
+# object graph: the recorded history of a real session through the model, and the closure oracle
+# ---------------------------------------------------------------------------------------------
+_MODEL_OK = [True]
+_QUICK = [True]
+GRAPH_SUBSPACE = "object-graph history of a real edit+save session: model's final state vs decoded saved package"
+
+
+def graph_check(sub: Ctx, rec, facts, where: dict, label: str) -> dict:
+    """`rec`: the recorder attached to the document's store; `facts`: the decoded saved package.
+    Returns the compact correspondence result (the model is run here, in the worker)."""
+    rec.flush()
+    tag = f" [{label}]"
+    hist = {"history_tail": rec.history_json(30), "ops": len(rec.ops)}
+    # -- the property on the real session (independent of the Lean model) -----------------------
+    for b in rec.bad_targets:   # TargetsExist on the real history
+        if b["target"] == 0:
+            sub.violation("null-reference-identifier-zero", f"object {b['object']} ({b['object_type']}) is given a TSP.Reference with identifier 0 "
+                          f"at {b['site']}: no such object exists (TargetsExist fails at op {b['op_index']})" + tag, {**where, **hist, "bad_target": b})
+        else:
+            sub.violation("reference-to-missing-object", f"object {b['object']} ({b['object_type']}) is given a reference to {b['target']} at {b['site']}, "
+                          f"but no object {b['target']} exists at that moment (TargetsExist fails at op {b['op_index']} of the recorded history)" + tag,
+                          {**where, **hist, "bad_target": b})
+    for i, name in rec.unlisted_new_files():
+        sub.violation("created-file-without-component-entry", f"object {i} was created in the new archive file {name} and no add_component_metadata "
+                      f"call for it followed" + tag, {**where, **hist, "object": i, "file": name})
+    for i, name, taken in rec.new_files:
+        if taken:
+            sub.violation("created-file-replaces-existing-member", f"create_object_from_dict stored object {i} as new file {name}, replacing the member of that name" + tag,
+                          {**where, **hist, "object": i, "file": name})
+    if not rec.filed():
+        sub.violation("stored-object-not-filed", "an object of the store has no archive in the file its file-name map names (update_object_file_store cannot reach it)" + tag,
+                      {**where, **hist})
+    # header object_references of every archive the session created or changed = the references of its message
+    load_refs, load_ids = rec.load["refs"], set(rec.load["ids"])
+    kept = []
+    for n, f in facts.pp.files.items():
+        for a in f.chunks[0].archives:
+            i = a.header.identifier
+            if not a.header.message_infos:
+                continue
+            m = sorted(V.all_references(a.objects[0]))
+            h = sorted(a.header.message_infos[0].object_references)
+            if i in load_ids and m == sorted(load_refs.get(i, [])):
+                continue   # not rewritten with different references
+            if not m and h and set(h) <= rec.ever.get(i, set()):
+                # the proviso of header_refs_exact, as the code computes it (`if len(references) > 0`): the message lost its last
+                # reference and the header keeps the list of an earlier moment; every entry once was a reference of this object
+                kept.append({"object": i, "type": type(a.objects[0]).__name__, "header_keeps": sorted(set(h))[:6]})
+                continue
+            if h != m:
+                sub.violation("header-object-references-differ-from-message", f"archive {i} ({type(a.objects[0]).__name__}, {'from source' if i in load_ids else 'new'}) in {n}: "
+                              f"the message refers to {m[:8]} but the header lists {h[:8]}" + tag, {**where, **hist, "object": i, "message": m[:40], "header": h[:40]})
+    # -- correspondence: the same history through the Lean model -------------------------------
+    req = rec.request()
+    t = int(not rec.bad_targets)
+    t0 = int(all(b["target"] == 0 for b in rec.bad_targets))
+    impl = f"{rec.results()} | filed={int(rec.filed_at_load)}/{int(rec.filed())} targets={t}/{t0} | {G.saved_state(facts)}"
+    out = {"cases": 1, "ops": len(rec.ops), "objects": len(rec.load["ids"]), "unwrapped": rec.unwrapped[:5], "disagreement": None,
+           "header_kept": [{**k, "source": where.get("source"), "history": where.get("history")} for k in kept[:2]]}
+    if not _MODEL_OK[0]:
+        return out
+    try:
+        model = common.run_model([req])[0]
+    except Exception as e:  # noqa: BLE001
+        model = f"driver failed: {e}"[:200]
+    if model != impl:
+        a, b = impl.split(" "), model.split(" ")
+        diff = [(x[:160], y[:160]) for x, y in zip(a, b) if x != y][:6]
+        if len(a) != len(b):
+            diff.append((f"{len(a)} words", f"{len(b)} words"))
+        short = "ostore ghist <load state: %d objects> " % len(rec.load["ids"]) + " ".join(str(x) for op in rec.ops[-40:] for x in op[:-2 if op[0] in "AX" else None])
+        out["disagreement"] = {"subspace": GRAPH_SUBSPACE, "request": short[:3000], "where": where, "label": label,
+                               "impl": " || ".join(d[0] for d in diff), "model": " || ".join(d[1] for d in diff)}
+    return out
+
+
 def _history_worker(task):
     L._quiet()
     seed, hid, src, nops, shape, package, twice = task
@@ -426,7 +504,13 @@ def _history_worker(task):
             except Exception:  # noqa: BLE001  unreadable fixture: outside the quantifier
                 return common.sub_result(sub, stats)
         source = V.Facts(src if src else _template())
-        doc, log, fresh = run_history(src, seed * 7919 + hid, nops, shape)
+        with G.recording():
+            doc, log, fresh = run_history(src, seed * 7919 + hid, nops, shape)
+        rec = G.rec_of(doc._model.objects)
+        if _QUICK[0] and src and nops == 0 and hid % 2:   # quick tier: the object graph of every second plain re-save
+            rec = None
+            doc._model.objects._verif_rec = None
+        stats["graph"] = []
         p1 = os.path.join(d, "one.numbers")
         try:
             doc.save(p1, package=package)
@@ -435,6 +519,8 @@ def _history_worker(task):
             return common.sub_result(sub, stats)
         issues, f1 = V.validate(p1, source, fresh_tables=fresh)
         stats["saved"] += 1
+        if f1 is not None and rec is not None:
+            stats["graph"].append(graph_check(sub, rec, f1, where, "first save"))
         sub.count("validator: saved packages", 1)
         sub.mark(("pkg", hid, seed, src))
         for sig, what, det in issues:
@@ -450,11 +536,17 @@ def _history_worker(task):
                 sub.violation(sig, what + " [second save of the same Document]", {**where, "log": log[-12:], "detail": det, "second_save": True})
             if f2 is not None:
                 stats["tiles_after_first_and_second_save"] = (len(f1.pp.of_type("Tile")), len(f2.pp.of_type("Tile")))
-            doc3, log3, fresh3 = run_history(p1, seed * 104729 + hid, 4)
+                if rec is not None:
+                    stats["graph"].append(graph_check(sub, rec, f2, {**where, "second_save": True}, "second save of the same Document"))
+            with G.recording():
+                doc3, log3, fresh3 = run_history(p1, seed * 104729 + hid, 4)
+            rec3 = G.rec_of(doc3._model.objects)
             p3 = os.path.join(d, "three.numbers")
             try:
                 doc3.save(p3)
-                issues, _ = V.validate(p3, f1, fresh_tables=fresh3)
+                issues, f3 = V.validate(p3, f1, fresh_tables=fresh3)
+                if f3 is not None and rec3 is not None:
+                    stats["graph"].append(graph_check(sub, rec3, f3, {**where, "reopened": True}, "saved file reopened, edited, saved"))
                 sub.count("validator: saved packages", 1)
                 for sig, what, det in issues:
                     sub.violation(sig, what + " [saved file reopened, edited, saved]", {**where, "log": log[-12:] + log3, "detail": det, "reopened": True})
@@ -490,7 +582,30 @@ def check_packages(ctx: Ctx):
         tasks.append((ctx.seed, hid, edit_srcs[k % len(edit_srcs)], ctx.rng.randrange(3, 25), None, k % 7 == 0, k % 4 == 0))
         hid += 1
     random.Random(ctx.seed).shuffle(tasks)
+    _MODEL_OK[0] = ctx.model_available
+    _QUICK[0] = ctx.quick
     res = common.run_parallel(ctx, _history_worker, tasks)
+    graphs = [g for r in res if r for g in r.get("graph", [])]
+    subsp = ctx.subspaces.setdefault(GRAPH_SUBSPACE, {"cases": 0, "exhaustive": False, "disagreements": 0})
+    subsp["cases"] += len(graphs)
+    subsp["recorded_operations"] = sum(g["ops"] for g in graphs)
+    ctx.evaluations += len(graphs)
+    for g in graphs:
+        if g["disagreement"]:
+            subsp["disagreements"] += 1
+            if len(ctx.disagreements) < 50:
+                ctx.disagreements.append(g["disagreement"])
+        for u in g["unwrapped"]:
+            ctx.notes.append("object-graph recorder: " + u)
+    if not ctx.model_available:
+        subsp["skipped_model"] = True
+    kept = [k for g in graphs for k in g["header_kept"]]
+    ctx.extra["object_graph"] = {
+        "sessions": len(graphs), "recorded_operations": subsp["recorded_operations"],
+        "header_list_kept_after_last_reference_removed": {"count": len(kept), "examples": kept[:4],
+            "note": "copy_object_to_iwa_file rewrites a header's object_references only `if len(references) > 0`: an object whose message lost "
+                    "all references keeps the list of an earlier moment (the entries still resolve; closure is not affected) - the proviso "
+                    "of header_refs_exact, seen on real sessions"}}
     raises = sorted({r["save_raises"] for r in res if r and r.get("save_raises")})
     acc = [r["tiles_after_first_and_second_save"] for r in res if r and r.get("tiles_after_first_and_second_save")]
     ctx.extra["validator"] = {"label": "implementation-level exploration (structural validator), not a proof",
